@@ -258,6 +258,81 @@ func callStmt(st ast.Stmt) string {
 	return fmt.Sprintf("⟨%s, %s, %s⟩", leanStr(kind), leanStrList(callee), leanStrList(args))
 }
 
+// interruptibleTake recognises, at the head of stmts,
+//
+//	ch := make(chan struct{})
+//	go func() { defer close(ch); <x.y.Take>() }()
+//	select { case <-ctx.Done(): return nil, ctx.Err(); case <-ch: }
+//
+// (ctx a parameter of the method) and returns the selector path of the call made in the goroutine.
+func interruptibleTake(stmts []ast.Stmt, params []string) ([]string, bool) {
+	if len(stmts) < 3 {
+		return nil, false
+	}
+	as, ok := stmts[0].(*ast.AssignStmt)
+	if !ok || as.Tok.String() != ":=" || len(as.Lhs) != 1 || len(as.Rhs) != 1 || src(as.Rhs[0]) != "make(chan struct{})" {
+		return nil, false
+	}
+	ch, ok := as.Lhs[0].(*ast.Ident)
+	if !ok {
+		return nil, false
+	}
+	g, ok := stmts[1].(*ast.GoStmt)
+	if !ok || len(g.Call.Args) != 0 {
+		return nil, false
+	}
+	fl, ok := g.Call.Fun.(*ast.FuncLit)
+	if !ok || len(fl.Type.Params.List) != 0 || len(fl.Body.List) != 2 {
+		return nil, false
+	}
+	d, ok := fl.Body.List[0].(*ast.DeferStmt)
+	if !ok || src(d.Call) != "close("+ch.Name+")" {
+		return nil, false
+	}
+	es, ok := fl.Body.List[1].(*ast.ExprStmt)
+	if !ok {
+		return nil, false
+	}
+	call, ok := es.X.(*ast.CallExpr)
+	if !ok || len(call.Args) != 0 {
+		return nil, false
+	}
+	callee := selectorPath(call.Fun)
+	if callee == nil {
+		return nil, false
+	}
+	sel, ok := stmts[2].(*ast.SelectStmt)
+	if !ok || len(sel.Body.List) != 2 {
+		return nil, false
+	}
+	sawCancel, sawDone := false, false
+	for _, c := range sel.Body.List {
+		cc := c.(*ast.CommClause)
+		if cc.Comm == nil {
+			return nil, false
+		}
+		comm := src(cc.Comm)
+		switch {
+		case comm == "<-"+ch.Name && len(cc.Body) == 0:
+			sawDone = true
+		case strings.HasPrefix(comm, "<-") && strings.HasSuffix(comm, ".Done()") && len(cc.Body) == 1:
+			ctx := strings.TrimSuffix(strings.TrimPrefix(comm, "<-"), ".Done()")
+			isParam := false
+			for _, p := range params {
+				isParam = isParam || p == ctx
+			}
+			if rs, ok := cc.Body[0].(*ast.ReturnStmt); ok && isParam && len(rs.Results) == 2 &&
+				src(rs.Results[0]) == "nil" && src(rs.Results[1]) == ctx+".Err()" {
+				sawCancel = true
+			}
+		}
+	}
+	if !sawCancel || !sawDone {
+		return nil, false
+	}
+	return callee, true
+}
+
 func wrapperFacts(dir, typeName, ctorName string) string {
 	files := pkgFiles(dir)
 	var embedded []string
@@ -315,10 +390,19 @@ func wrapperFacts(dir, typeName, ctorName string) string {
 				var body []string
 				calls := 0
 				if x.Body != nil {
-					for _, st := range x.Body.List {
-						body = append(body, callStmt(st))
+					list := x.Body.List
+					for i := 0; i < len(list); i++ {
+						if callee, ok := interruptibleTake(list[i:], params); ok {
+							// one statement of kind "expr-or-cancel": the call, made in a goroutine and awaited against
+							// ctx.Done() (on cancellation the method returns `nil, ctx.Err()` and nothing after it runs)
+							body = append(body, fmt.Sprintf("⟨%s, %s, %s⟩", leanStr("expr-or-cancel"), leanStrList(callee), leanStrList(nil)))
+							calls++
+							i += 2
+							continue
+						}
+						body = append(body, callStmt(list[i]))
+						calls += countCalls(list[i])
 					}
-					calls = countCalls(x.Body)
 				}
 				methods = append(methods, fmt.Sprintf("{ name := %s, recv := %s, params := %s,\n      body := [%s],\n      callCount := %d }",
 					leanStr(x.Name.Name), leanStr(recv), leanStrList(params), strings.Join(body, ", "), calls))
